@@ -34,7 +34,8 @@ def enc_pairs(d):
 
 def enc_config(user_config):
     """Encode the *resolved* Config (built by the real emmet.config.Config) for the model.
-    Raises NotModelled for configurations outside the model (BEM, callbacks that change text, ...)."""
+    Raises NotModelled for configurations outside the model (callbacks that change text, option values
+    of a type the library does not document, ...)."""
     from emmet.config import Config
     from emmet.snippets import markup_snippets, xsl_snippets, pug_snippets
     uc = copy.deepcopy(user_config)
@@ -42,8 +43,6 @@ def enc_config(user_config):
     if cfg.type != 'markup':
         raise NotModelled('type')
     o = cfg.options
-    if o.get('bem.enabled'):
-        raise NotModelled('bem')
     syntax = _s(cfg.syntax)
     user_snips = dict(uc.get('snippets') or {})
     base = dict(markup_snippets)
@@ -86,6 +85,24 @@ def enc_config(user_config):
         ctx_name = ctx.get('name', '')
         if not isinstance(ctx_name, str):
             raise NotModelled('context name')
+    # BEM addon: bem.enabled / bem.element / bem.modifier and the class attribute of the context
+    bem_enabled = bool(o.get('bem.enabled'))
+    bem_element = o.get('bem.element')
+    bem_modifier = o.get('bem.modifier')
+    if bem_enabled and not (isinstance(bem_element, str) and isinstance(bem_modifier, str)):
+        raise NotModelled('bem separators')
+    ctx_class = None
+    if bem_enabled and cfg.context is not None:     # only the BEM addon reads it
+        if not isinstance(cfg.context, dict):
+            raise NotModelled('context type')
+        c_attrs = cfg.context.get('attributes', {})
+        if not isinstance(c_attrs, dict):
+            raise NotModelled('context attributes')
+        ctx_class = c_attrs.get('class', '')
+        if ctx_class is None:
+            ctx_class = ''                   # parse_bem: `class_value.split() if class_value else []`
+        if not isinstance(ctx_class, str):
+            raise NotModelled('context class')
     ib = o.get('output.inlineBreak')
     if ib is None or ib is False:
         ib = 0
@@ -126,6 +143,10 @@ def enc_config(user_config):
     w += enc_str(_s(o.get('comment.after')))
     w += enc_opt(enc_pairs, ma if ma else None)
     w += enc_opt(enc_pairs, vp if vp else None)
+    w += enc_bool(bem_enabled)
+    w += enc_str(_s(bem_element) if bem_enabled else '')
+    w += enc_str(_s(bem_modifier) if bem_enabled else '')
+    w += enc_opt(enc_str, ctx_class)
     return w
 
 
